@@ -217,6 +217,35 @@ CHECKS = {
         note='The model is static relations plus a small decision procedure - all the property contains; where the synopsis '
              'is ambiguous or silent the machine is nondeterministic (either reading accepted).',
         design='5/C20'),
+    'C10': dict(
+        engine='spec/Program.tla, spec/ProgramExport.tla',
+        technique='TLC model checking of program values (accumulation through @ SYMBOL chains) and of a 16-action machine '
+                  'that builds and executes a test case around one process start + replay of every enumerated case (and '
+                  'random deeper ones from -simulate) with a real probe process through the real CLI',
+        text='TLC checks AccumulationIsAppendInDefinitionOrder (argv, stdin parts, transformations), ActStdinLast, '
+             'ShellIsOneString, InterpreterArgv, CwdIsCurrentDirectory, ExecutedOnce, OutcomeTable, AssertionsSeeTheProcess '
+             'and TransformsContextStreamOnly over 18 contexts of program use (four actors, run / $ / % per phase, text '
+             'sources, matchers, transformers), chains up to depth 2-3 and exit codes; each case runs a sh probe that '
+             'records argv (NUL separated), stdin, cwd and its parent\'s command line and exits as scripted; record, '
+             'verdict, blamed line, result files and assertion verdicts are compared.',
+        note='argv[0] is not compared; stdout/stderr -from explored with exit code 0 only; D12 (program output placed before '
+             'earlier stdin parts) was found and repaired (fix: 0d09e39) and is kept as a deviation TLC must refute.',
+        design='5/C10'),
+    'C11': dict(
+        engine='spec/Settings.tla, spec/SettingsExport.tla',
+        technique='TLC model checking of an 11-action machine executing histories of env / cd / timeout / def instructions '
+                  'interleaved with probes over the phases, against the reference semantics as folds + replay of every '
+                  'history (and random longer ones from -simulate) with real probe processes through the real CLI',
+        text='TLC checks ActSeesActSet, OthersSeeNonActSet, BothStartAsOsEnv, OsEnvUntouched, SetsIndependent, '
+             'ActSetFinalAfterSetup, CwdForward, TimeoutForward, DefForward, KilledIffLimit (invariants) and ForwardOnly, '
+             'ChildCdInvisible, SettingsOnlyByInstructions (action properties) over every history of <= 2 env instructions '
+             '(-of act / !act / both, ${name} templates, program-sourced values) in all phase distributions and of the '
+             'other settings; each history is a real test case whose sh probes record environment, cwd and symbol values, '
+             'with one real sleeping process per timed case.',
+        note='Bounded history length (longer by seeded simulation); the timeout in force at each probe is read from the '
+             'proc trace event, really enforced timeouts are observed in the sleeper family only; a deviation '
+             '(ActSetReinitialised) must be refuted by TLC in every run.',
+        design='5/C11'),
 }
 
 NOT_YET = 'check not built yet (planned in DESIGN.md section 5); no claim is made'
